@@ -63,7 +63,7 @@ def main(argv):
                 targets = [meta["property"]] if meta["property"] in checks else []
             for c in targets:
                 t0 = time.time()
-                rc, out = sh([os.path.join(VERIF, "check"), c, "--tier", "quick"], cwd=VERIF, timeout=3000)
+                rc, out = sh([os.path.join(VERIF, "check"), c, "--tier", "quick"], cwd=VERIF, timeout=1500)
                 line = next((l for l in out.splitlines() if l.startswith("VIOLATION")), "")
                 if rc == 1 and line:
                     row["flagged"].append(c + (" (no-failing-input-found)" if line.endswith("no-failing-input-found") else ""))
